@@ -61,12 +61,19 @@ RayPos2n(s, ds, ntl, j) == 2 * ntl * s - ds * (ntl - 1) + 2 * j * ds      \* pos
 UadbEff(geo) == GridOf(geo).uadb
 RaySpacing(geo, ds) == IF UadbEff(geo) THEN 2 * ds ELSE ds
 OnBoundary(u, unit) == LET f == Mod(u + unit \div 2, unit) IN f <= unit \div 1024 \/ f >= unit - unit \div 1024
-Tie(geo, rf) ==
+\* "Bins whose LOR end points lie on a voxel boundary (where which voxel is 'first' is a rounding tie) are
+\* excluded": rf.ep lists the end points of the rays on the border of the field of view in 2^-12 voxels
+\* (x, y always; z for oblique segments - direct planes are placed off the plane boundaries by the ray tracer)
+EndPointTie(rf) ==
+  \E i \in 1..Len(rf.ep) : (i % 3 # 0 \/ rf.b[1] # 0) /\ OnBoundary(rf.ep[i], 4096)
+AlongBoundary(geo, rf) ==
   LET cc == CfgOf(geo)  b == BinOfList(rf.b)  nvw == NumViews(cc)  unit == 4096 * 2 * geo.ntl IN
   /\ geo.impl # "Interpolation"         \* the interpolating matrix is continuous in s: no ties
   /\ PhiOffsetZero(cc, GridOf(geo))
   /\ \/ b.view = 0 /\ \E j \in 0..(geo.ntl - 1) : OnBoundary(RayPos2n(rf.sx, RaySpacing(geo, rf.dsx), geo.ntl, j), unit)
      \/ 2 * b.view = nvw /\ \E j \in 0..(geo.ntl - 1) : OnBoundary(RayPos2n(rf.sy, RaySpacing(geo, rf.dsy), geo.ntl, j), unit)
+
+Tie(geo, rf) == geo.impl # "Interpolation" /\ (EndPointTie(rf) \/ AlongBoundary(geo, rf))
 
 (* ---------------- decoding ---------------------------------------------------- *)
 ObsHook(h) == IF h[1] = 3 THEN << "clear" >>
@@ -106,7 +113,11 @@ Outcome(r) ==
               \* switches req; the header carries the effective switches; a new object parsed it
               IF r.src \in 1..Len(geoms) /\ geoms[r.src].impl = "FromFile"
               THEN LET geo == geoms[r.src]  cc == CfgOf(geo)  gg == GridOf(geo) IN
-                   Res(r.written /\ r.parsed /\ SwOf(r.sw) = EffectiveSwitches(cc, gg, SwOf(r.req)), "new",
+                   \* known finding C03-fromfile-header: the header as written cannot be parsed (it names the template
+                   \* projection data without the extension it was stored with); the driver then repairs that name
+                   Res(r.written /\ r.parsed /\ SwOf(r.sw) = EffectiveSwitches(cc, gg, SwOf(r.req)),
+                       IF r.written /\ ~r.parsed /\ r.repaired /\ SwOf(r.sw) = EffectiveSwitches(cc, gg, SwOf(r.req))
+                       THEN "C03-fromfile-header" ELSE "new",
                        NewFromFile(GenOf(r.src), cc, gg, SwOf(r.sw), r.cacheOn, r.basicOnly))
               ELSE Res(FALSE, "new", st)
          ELSE Res(r.impl \in Impls, "new", NewMatrix(r.impl, SwOf(r.sw), r.cacheOn, r.basicOnly))
